@@ -229,10 +229,12 @@ class LemmaChain:
             return False
         timeout = timeout or self.timeout
         if hyps is None:
-            attempts = [(self.select(node, closed=True), min(timeout, 10.0))]
             wide = self.select(node)
-            if set(wide) != set(attempts[0][0]):
-                attempts.append((wide, timeout))
+            closed = self.select(node, closed=True)
+            if len(wide) <= 40 or set(wide) == set(closed):
+                attempts = [(wide, timeout)]
+            else:
+                attempts = [(closed, min(timeout, 10.0)), (wide, timeout)]
         else:
             attempts = [(list(hyps), timeout)]
         st = 'unknown'
@@ -809,6 +811,11 @@ def make_body(c, tr, verbose=False):
             zero = [x for kind, x in t.domains if kind == 'pos' and abs(d.vals[x]) < 1e-12 and chain.prove(f'log argument #{x} is zero', d.eq(x, 0))]
             return [Goal(f'{what}: the real code returns {d.vals[I]} (log arguments proved identically zero on this region: '
                          f'{[d.to_str(x, 3) for x in zero][:2]})', d.FALSE, signature=SIG_NAN)]
+        vi, vo = d.vals[I], d.vals[O]
+        if not abs(vi - vo) <= 1e-7 * max(1.0, abs(vo)):
+            # implementation and oracle already differ at this region's witness: no proof to attempt, the witness
+            # (and the solver's own point of the region) go to the replay on the real code
+            return [Goal(f'{what} (at the region witness: implementation {vi!r}, oracle {vo!r})', d.FALSE, signature=sig)]
         chain = LemmaChain(t, dom(d, V) + list(t.pcs), tr, cfg_label(c), timeout=c.get('lemma_timeout', 30.0), verbose=verbose)
         g = chain.equal(I, O, sig, what, impl_end)
         open_lemmas = [w for w, st in chain.failed if st == 'unknown']
@@ -930,6 +937,9 @@ ATTR_OF = {'lambda': 'lambda_'}
 
 def plumb_replay(variant, which):
     """concrete run (plain tensors, no engine): (reproduced, detail)"""
+    import torchtree.evolution.bdsk  # noqa: F401  (registers the classes)
+    import torchtree.evolution.birth_death  # noqa: F401
+
     js, keys = plumb_json(variant)
     try:
         model, dic = cm.build(js)
@@ -1053,17 +1063,18 @@ def tasks_for(tier):
     ts.append(('density', D(m=2, times='abs', rho_shape='short', survival=False, cell='0<s0<B<s1<c0', split={'rho0': False})))
     ts.append(('density', D(m=2, times='abs', cell='0<s0<=s1<B<c0', removal=True, split={'rho0': False})))
     # ---- one epoch against the constant-rate oracle (the Explorer enumerates tip-at-0 / rho = 0 / searchsorted regions)
-    for surv in (False, True):
-        for rem in (False, True):
-            ts.append(('density', D(survival=surv, removal=rem)))
+    ts.append(('density', D(survival=True, removal=True)))
+    ts.append(('density', D(survival=True, removal=False)))
+    ts.append(('density', D(survival=False, removal=False)))
     ts.append(('density', D(origin='root_edge')))
-    ts.append(('density', D(origin='none', removal=True)))
     ts.append(('density', D(times='rel')))
     ts.append(('density', D(removal=True, split={'corner': True})))
     # ---- the constant-model class
     ts.append(('density', D(cls='BD')))
-    ts.append(('density', D(cls='BD', survival=False)))
     if tier != 'quick':
+        ts.append(('density', D(survival=False, removal=True)))
+        ts.append(('density', D(origin='none', removal=True)))
+        ts.append(('density', D(cls='BD', survival=False)))
         ts.append(('density', D(times='abs', survival=False)))
         ts.append(('density', D(rho_shape='short')))
         for surv in (False, True):
@@ -1127,9 +1138,6 @@ def run_task(task, tr):
 
 def _run_task(task, tr):
     kind, arg = task
-    tr.bounds['taxa'] = 'n = 2 (quick), n <= 3 (thorough); the density depends on the tree through node heights only'
-    tr.bounds['epochs'] = ('m = 1 against the constant-rate oracle; m = 2 with identical rates, rho = 0 at the new boundary and a '
-                           'symbolic boundary position, against the same oracle')
     if kind == 'plumb':
         return run_plumbing_task(arg, tr)
     if kind == 'beast':
@@ -1165,6 +1173,23 @@ def body(chk):
         'technique, not claimed',
         'removal probability with r=0 and rho=1 is examined in a separate task (corner): the general tasks assume r>0 or rho<1',
     }
+    quick = chk.tier == 'quick'
+    chk.total.bounds.update({
+        'taxa': 'n = 2' if quick else 'n <= 3 (one epoch); n = 2 and selected n = 3 cells (two epochs)',
+        'tree': 'the density sees the tree through node heights only: heights of a caterpillar ((0,1),2) with unconstrained tip '
+                'order cover every 2/3-taxon tree up to relabelling; serial and contemporaneous tips, ties included',
+        'one epoch': 'symbolic lambda, mu, psi, rho, r, origin, heights; with/without survival conditioning and removal probability; '
+                     + ('origin given / root edge; times omitted / [0] relative' if quick else
+                        'origin given / root edge / omitted; times omitted / [0] absolute / [0] relative')
+                     + '; every path region (coverage certified by the solver)',
+        'two epochs': ('identical rates, rho=0 at the new boundary, symbolic boundary, absolute times; cells of the boundary position: '
+                       + ', '.join(QUICK_CELLS if quick else CELLS_N2 + CELLS_N2_TIP0)
+                       + ('; quick: serial tips, rho>0, s0<=s1, boundary above the lower tip (cells certified to cover this)' if quick else
+                          '; rho>0 (cells certified to cover the n=2 domain); rho=0 and root-edge variants on selected cells; n=3: ' + ', '.join(CELLS_N3[:6])
+                          + ' (no coverage claim for n=3)')),
+        'not covered': 'more than two epochs, epochs with different rates (BEAST2 multi-epoch literals are plain unit tests), rho-sampling '
+                       'at an inner boundary, relative times with two epochs, batched parameters, numerical integration of the master equations',
+    })
     chk.total.stubs |= {'exp', 'log', 'sqrt (uninterpreted, generalised to real variables inside every lemma)'}
     pmap(run_task, tasks_for(chk.tier), chk.total, workers=12)
 
